@@ -564,12 +564,26 @@ package parser
 //@   loopinv [C20:stack-balanced-inv] SameStack(p.breakStack, old(p.breakStack)) && SameStack(p.continueStack, old(p.continueStack))
 //@ end
 
+//@ pred PrefixKeptT(P seq[token.Token], Q seq[token.Token]) = len(Q) <= len(P) && (forall k int :: {P[k]} {Q[k]} (0 <= k && k < len(Q)) ==> P[k] == Q[k])
+
 //@ func parseMovementValue
 //@   include ParseFrame
 //@   requires p != nil
 //@   ensures [C20:stack-balanced] result1 == nil ==> (SameStack(p.breakStack, old(p.breakStack)) && SameStack(p.continueStack, old(p.continueStack)))
 //@   ensures [C18:located] result1 != nil ==> ErrLoc(result1)
 //@   loopinv [C20:stack-balanced-inv] SameStack(p.breakStack, old(p.breakStack)) && SameStack(p.continueStack, old(p.continueStack))
+// C14: one step per plain identifier; 'step * n' (1 <= n <= 9999) contributes exactly n copies, in place; commas
+// contribute nothing; what is already collected is never touched
+//@   loop 1
+//@     transition [C14:steps] PrefixKeptT(movementCommands, prev(movementCommands))
+//@        && (prev(p.curToken.Type) == token.COMMA ==> len(movementCommands) == len(prev(movementCommands)))
+//@        && (prev(p.curToken.Type) == token.IDENT ==> (
+//@              len(movementCommands) == len(prev(movementCommands)) + (prev(p.peekToken.Type) == token.MUL ? intOf(prev(p.peek2Token.Literal)) : 1)
+//@              && len(movementCommands) >= len(prev(movementCommands)) + 1
+//@              && (forall k int :: {movementCommands[k]} (len(prev(movementCommands)) <= k && k < len(movementCommands)) ==> movementCommands[k] == prev(p.curToken))))
+//@   loop 2
+//@     invariant [C14:mul-inv] 0 <= i && i <= num && len(movementCommands) == outer(len(movementCommands)) + i && PrefixKeptT(movementCommands, outer(movementCommands))
+//@        && (forall k int :: {movementCommands[k]} (outer(len(movementCommands)) <= k && k < len(movementCommands)) ==> movementCommands[k] == moveCommand)
 //@ end
 
 //@ func parseMovementValue$1
